@@ -17,6 +17,7 @@ import (
 	goparser "go/parser"
 	goscanner "go/scanner"
 	gotoken "go/token"
+	"io"
 	"os"
 	"os/exec"
 	"path/filepath"
@@ -48,10 +49,42 @@ var (
 	imp     *packages.Importer
 )
 
+// expCache: export data of the few packages generated programs import, from ONE `go list` call.
+type expCache struct{ m map[string]string }
+
+func (c *expCache) Find(dir, pkgPath string) (io.ReadCloser, error) {
+	f, ok := c.m[pkgPath]
+	if !ok {
+		cmd := exec.Command("go", "list", "-export", "-f", "{{.Export}}", pkgPath)
+		cmd.Dir = repo()
+		out, err := cmd.Output()
+		if err != nil {
+			return nil, fmt.Errorf("go list -export %s: %v", pkgPath, err)
+		}
+		f = strings.TrimSpace(string(out))
+		c.m[pkgPath] = f
+	}
+	if f == "" {
+		return nil, fmt.Errorf("no export data for %s", pkgPath)
+	}
+	return os.Open(f)
+}
+
 func setup() {
 	impOnce.Do(func() {
 		impFset = token.NewFileSet()
 		imp = packages.NewImporter(impFset)
+		c := &expCache{m: map[string]string{}}
+		cmd := exec.Command("go", "list", "-export", "-deps", "-f", "{{.ImportPath}}\t{{.Export}}", "fmt", "runtime", "strings", "math", "errors",
+			"github.com/qiniu/x/stringutil", "github.com/qiniu/x/stringslice", "github.com/qiniu/x/errors", "github.com/qiniu/x/xgo/ng", "github.com/qiniu/x/xgo", "github.com/qiniu/x/osx")
+		cmd.Dir = repo()
+		out, _ := cmd.Output()
+		for _, l := range strings.Split(string(out), "\n") {
+			if f := strings.SplitN(l, "\t", 2); len(f) == 2 && f[1] != "" {
+				c.m[f[0]] = f[1]
+			}
+		}
+		imp.SetCache(c)
 	})
 }
 
@@ -450,7 +483,7 @@ func main() {
 	}
 	r := vh.NewRand(f.Seed)
 	var progs []built
-	nRun := 10
+	nRun := 6
 	if f.Tier == "thorough" {
 		nRun = 120
 	}
